@@ -272,6 +272,14 @@ def main():
             return replay(scratch, a.prop, a.replay)
         cx = Ctx(a.prop, a.tier, scratch)
         (run_c04 if a.prop == "C04" else run_c18)(cx)
+        cx.structure = None
+        if a.prop == "C04":
+            import c04_structure as S
+            cx.structure = S.Structure(cx, scratch)
+            for shape in S.struct_shapes(a.tier):
+                cx.structure.check_shape(shape)
+            cx.structure.validate()
+            cx.structure.confirm()
         confirm(cx, scratch)
         if a.prop == "C18":
             opcode_table_check(cx, scratch)
@@ -290,8 +298,18 @@ def confirm(cx, scratch):
     """replay every witness on the real writer / transpiler / loader tokenizer (native harness in the compiler crate, which
     depends on bytecode; the transpiler's private re-encoder is compiled in from its source file)"""
     cx.findings = [f for f in cx.findings if not f.get("table")] if hasattr(cx, "findings") else cx.findings
-    if not cx.findings:
+    allf = cx.findings
+    codec = [f for f in allf if "spec" not in f]
+    if not codec:
         return
+    cx.findings = codec
+    try:
+        _confirm_codec(cx, scratch)
+    finally:
+        cx.findings = allf
+
+
+def _confirm_codec(cx, scratch):
     natc = N.NativeCompiler(scratch)
     vec = os.path.join(scratch.dir, "codec_vectors.txt")
     with open(vec, "w") as fh:
@@ -349,8 +367,11 @@ def report(a, cx, t0):
         import re as _re
         p = V.save_replay(prop, _re.sub(r"[^A-Za-z0-9_-]+", "_", ("%s_%s_%s" % k).replace("=", "").replace(",", "-")), f)
         print("VIOLATION property=%s replay=%s" % (prop, p))
-        print("   %s [%s] %s: %s; opcode %d, arguments %r -> real code: %s" % (f["fn"], f["arm"], f["class"], f["detail"], f["opcode"],
-              ["".join(map(chr, x)) for x in f["args"]], f.get("native")))
+        if "spec" in f:
+            print("   %s [%s] %s: %s; file %s -> real code: %s" % (f["fn"], f["arm"], f["class"], f["detail"], f["spec"], f.get("native")))
+        else:
+            print("   %s [%s] %s: %s; opcode %d, arguments %r -> real code: %s" % (f["fn"], f["arm"], f["class"], f["detail"], f["opcode"],
+                  ["".join(map(chr, x)) for x in f["args"]], f.get("native")))
         code = V.EXIT_VIOLATION
     if (bad or cx.qs.undecided) and code == V.EXIT_OK:
         for f in bad[:10]:
@@ -368,8 +389,15 @@ def report(a, cx, t0):
                          "mirsym interpreter with symbolic-character strings (strmodels.py: String/str/Vec/char models, rustc's packed format! templates); every counterexample is replayed on the real writer, tokenizer" + (" and transpiler re-encoder" if prop == "C18" else ""),
                          "record framing of MScriptFile::get_functions (`[op, ' ', args.., NUL]`, `[op, NUL]`) is replicated in the check" +
                          ("; line framing of transpile_file (read_line up to LF, split_once(' '), trim_start) is replicated; the mnemonic is an opaque white-space-free token" if prop == "C18" else "")],
-        "functions_encoded": cx.functions(),
-        "paths_explored": cx.paths,
+        "functions_encoded": dict(cx.functions(), **({("file structure: " + k): v for k, v in cx.structure.K.encoded_functions().items()} if getattr(cx, "structure", None) else {})),
+        "paths_explored": cx.paths + (cx.structure.paths if getattr(cx, "structure", None) else 0),
+        "file_structure_kernel": ({"shapes": cx.structure.shapes_done,
+                                   "bounds": "1..3 functions per file with CONCRETE labels (a/b/c, repetition included), 0..2 instructions per function, 0..2 arguments of <= 2 characters; opcodes symbolic in 1..=62, argument characters symbolic ASCII except NUL",
+                                   "environment": ["File::open succeeds; the file holds exactly the bytes CompiledItem::repr returned, function after function (what perform_file_io_out writes)",
+                                                   "BufReader::read_until(0) returns the bytes up to and including the next NUL, Ok(0) at the end of the file",
+                                                   "String::from_utf8 / from_utf8_lossy are the identity on ASCII", "log level: one arbitrary boolean per load",
+                                                   "HashMap<String, Function> with concrete keys: insert replaces, entry().or_insert keeps"],
+                                   "validation_engine_vs_real_code": cx.structure.validation} if getattr(cx, "structure", None) else None),
         "supporting_step_opcode_table (finite, native, not a solver obligation)": getattr(cx, "opcode_table", None),
         "bounds": "argument-length vectors %s; characters: ANY Unicode scalar value except NUL (symbolic code points, not an alphabet); opcode symbolic in 1..=62" % (sh,),
         "solver_time_s": round(cx.qs.solver_s, 2),
@@ -388,7 +416,13 @@ def replay(scratch, prop, path):
         pass
     cx = X()
     cx.prop, cx.findings = prop, [f]
-    confirm(cx, scratch)
+    if "spec" in f:
+        import c04_structure as S
+        st = S.Structure.__new__(S.Structure)
+        st.cx, st.scratch = cx, scratch
+        st.confirm()
+    else:
+        confirm(cx, scratch)
     print("replay:", f.get("native"))
     if f.get("confirmed"):
         print("VIOLATION property=%s replay=%s" % (prop, path))
